@@ -330,7 +330,7 @@ Proof.
   destruct (fst (tf_init true ApiOpen src ib cf fc)); [exfalso; apply Hd; reflexivity| |]; exact H.
 Qed.
 
-(* TdmsFile.open raising: the code as it is (defect D11) *)
+(* TdmsFile.open raising: the code as it is (defect D19) *)
 Lemma init_open_raise_unpatched_leaks :
   exists src ib fc,
     fst (tf_init false ApiOpen src ib CNoFault fc) = Raise EParse /\
@@ -356,7 +356,7 @@ Proof.
      [exfalso; apply Ho, no_owned_iff, E | destruct src; try discriminate H; reflexivity]).
 Qed.
 
-(* the constructor failing on the second open(): the code as it is (D11) *)
+(* the constructor failing on the second open(): the code as it is (D19) *)
 Lemma ctor_index_open_fails_unpatched_leaks : forall a fc,
     fst (tf_init false a Path true CIndexOpenFails fc) = Raise EOpen /\
     owned_open (co (snd (tf_init false a Path true CIndexOpenFails fc))) = [DataFile].
@@ -683,7 +683,7 @@ Lemma w_init_clean : forall t, w_clean (w_init t).
 Proof. intros [[|]|[|]]; repeat split; reflexivity. Qed.
 
 (* the unpatched writer: open() failing on the index file leaves the data
-   file open (defect D11, third site) *)
+   file open (defect D19, third site) *)
 Lemma w_open_index_fails_unpatched_leaks :
   fst (w_with false WIndexOpenFails [] (w_init (WPath true))) = Raise EOpen /\
   lib_open (wdata (snd (w_with false WIndexOpenFails [] (w_init (WPath true))))) = true.
